@@ -14,7 +14,7 @@ GATES1 = {"Dgate": 2, "Sgate": 2, "Rgate": 1, "Xgate": 1, "Zgate": 1, "Fourierga
           "Pgate": 1}
 GATES2 = {"BSgate": 2, "MZgate": 2, "sMZgate": 2, "S2gate": 2, "CKgate": 1, "CXgate": 1, "CZgate": 1}
 PREPS = {"Vacuum": 0, "Coherent": 2, "Squeezed": 2, "DisplacedSqueezed": 4, "Thermal": 1, "Fock": 1, "Catstate": 1}
-CHANNELS = {"LossChannel": 1, "ThermalLossChannel": 2}
+CHANNELS = {"LossChannel": 1, "ThermalLossChannel": 2, "PassiveChannel": 1}
 MEAS = {"MeasureHomodyne": 1, "MeasureFock": 0}
 BACKEND_CLASSES = {
     "gaussian": dict(g1=["Dgate", "Sgate", "Rgate", "Xgate", "Zgate", "Fouriergate"], g2=["BSgate", "MZgate", "S2gate", "sMZgate"],
@@ -79,6 +79,8 @@ def model_par(p):
 # ------------------------------------------------------------------ building real programs
 
 def _par(p, prog, free):
+    if isinstance(p, list):          # matrix-valued parameter (PassiveChannel)
+        return np.array(p, dtype=float)
     if isinstance(p, dict):
         v = prog.reg_refs[p["m"]].par if "m" in p else free[p["f"]]
         k = p.get("k", 1)
@@ -91,6 +93,10 @@ def _par(p, prog, free):
 
 def _numeric(op):
     return not any(isinstance(p, dict) for p in op.get("pars", []))
+
+
+def has_matrix(spec):
+    return any(isinstance(p, list) for sg in spec["segs"] for o in sg for p in o.get("pars", []))
 
 
 def _append_ops(prog, ops_list, op_cache=None):
